@@ -31,6 +31,30 @@ CHECKS = {
    "For every lexicon/cost dictionary with each of 3 user lexicons, option setting and sentence <= 5/6 chars, lattice candidates and optimal cost equal those of the dictionary whose system lexicon is extended by the same rows; all load/replace/clear histories to depth 3/4 (also on a mapped dictionary) behave like the canonical history; user rows with ids in {0,n-1,n,n+1,65535}^2 and malformed CSVs are accepted iff valid, in 5 contexts, never panicking.",
    "candidate equality is modulo lexicon type and word id, as the statement says",
    "bounded exhaustive input and history enumeration with a differential oracle"),
+ "C07": ("exhaustive scorer key sets + bigram-model families + E5 dual build", "4.C07",
+   "(1) all 2^16 subsets of a 4x4 key grid (thorough: all subsets up to size 5 of a 6x6 grid, dense grids with keys up to 2^22) are built into the XOR double array and every pair of a query grid incl. absent, out-of-range and invalid keys is looked up, also after encode/decode; (2) for K=1 every row layout over {'',x,y,*} and for K in {2,3,7,8,9,16,17} patterned rows (quoted, shared, ragged) with subsets of a cost menu incl. BOS/EOS entries, every id pair incl. 0 of the raw and the dual connector equals the string-level defining sum; (3) raw, dual and materialised matrix tokenize all sentences identically; (1)-(2) run in the portable and the AVX2 build.",
+   "dual connector compared only where the sum of absolute costs fits 16 bits (the statement's condition); '*' never listed in bigram.cost",
+   "bounded exhaustive enumeration of key sets and models against a string-level reference"),
+ "C09": ("E4 crash-point enumerator", "4.C09",
+   "Every strict prefix (all ~2.6e5 offsets) of the images of 6 dictionaries (matrix/raw/dual, plain and with user lexicon + mapper) is fed to Dictionary::read through a whole-slice reader and short-read readers; every single-byte substitution of the magic and 5 foreign headers: all must return Err without panic.",
+   "a Write sink can only append, so an interrupted write leaves exactly a prefix; streams that start with the current magic but continue with garbage are outside the statement",
+   "exhaustive crash-point (prefix) enumeration"),
+ "C10": ("E4 byte-string / edit enumerator + E1", "4.C10",
+   "One definition file at a time is replaced by every byte string up to 6/7 bytes over a per-format alphabet, every line of <= 4/5 tokens of a per-format token grammar, every CSV row of a field menu, every single-byte edit/truncation/line operation of 3 valid seed files (raw and dual connectors too) and structured extremes; the builder must return Ok or Err; accepted char.def files inside a conservative reference grammar must yield exactly the table they describe; every accepted dictionary tokenizes all sentences <= 3/4 chars with well-formed tokens.",
+   "the independent char.def reader gives no verdict outside its grammar; mapping iterators are swept in C06; K1 and K4 are recorded findings",
+   "bounded exhaustive input enumeration (all strings / all single edits) with acceptance-implies-safety oracle"),
+ "C11": ("E4/E1 CSV file enumerator", "4.C11",
+   "All lexicon CSV files of 1-2 rows (3 rows: slice in quick, all in thorough) from a row menu (7-8 raw surfaces, 4-5 number combinations, 6-8 raw feature tails, 4 terminators) are built; words, their order, ids, costs and verbatim features are compared with the generating structure and the homograph multiset of each surface is read from the lattice.",
+   "expected values come from the structure that generated the file; no CSV parser on the oracle side",
+   "bounded exhaustive input enumeration against the generating structure"),
+ "C12": ("E1 input-tree explorer, metamorphic classes", "4.C12",
+   "For every dictionary meeting the precondition (4-8 settings of the neighbouring category x lexicons x 6 connectors) and every sentence <= 6/7 chars over {a,b,c,U+0020,U+3000}, all members of a space-normal-form class must yield the same token list (surface, feature, cost, ids, total); the class representative is checked against the reference minimum.",
+   "asserted only under the statement's precondition",
+   "bounded exhaustive input enumeration with a metamorphic class oracle"),
+ "C13": ("E2 history explorer over training lines", "4.C13",
+   "Every sequence of <= 3/4 lines from a 7-line set (empty, space-only, trailing spaces, repeated) is fed through the reorder protocol on dictionaries with both ignore_space settings; the statistics must equal the counts of the reference lattice, be sorted by frequency then id and be accepted by map_connection_ids_from_iter with unchanged tokenization.",
+   "reference lattice recounts (predecessor, node) pairs independently",
+   "bounded exhaustive operation-sequence enumeration against a reference recount"),
 }
 
 NOT_YET = {}
